@@ -26,11 +26,13 @@ Str(s) == [i \in DOMAIN s |-> Ch(s[i], IF s[i] \in {"/", "*"} THEN "punct" ELSE 
 LineChars(t) == Cfg.tokens[t].chars
 
 \* the value of the doc attributes: `/// x` gives " x" per line; #[doc = "x"] gives "x"; a block comment one value with newlines
+\* "mixed": a block comment followed by one more `///` line (Cfg.tail) - several values, one of them with line breaks
+BlockValue == LET RECURSIVE Join(_)
+                  Join(k) == IF k > Len(lines) THEN <<>> ELSE (IF k > 1 THEN <<NL>> ELSE <<>>) \o LineChars(lines[k]) \o Join(k + 1)
+              IN <<SP>> \o Join(1) \o <<SP>>
 AttrValues ==
-  IF syntax = "block"
-  THEN << LET RECURSIVE Join(_)
-              Join(k) == IF k > Len(lines) THEN <<>> ELSE (IF k > 1 THEN <<NL>> ELSE <<>>) \o LineChars(lines[k]) \o Join(k + 1)
-          IN <<SP>> \o Join(1) \o <<SP>> >>
+  IF syntax = "block" THEN << BlockValue >>
+  ELSE IF syntax = "mixed" THEN << BlockValue, <<SP>> \o Cfg.tail >>
   ELSE [k \in DOMAIN lines |-> IF syntax = "line" THEN <<SP>> \o LineChars(lines[k]) ELSE LineChars(lines[k])]
 
 \* parse_docs: one value containing a line break => /**{value}*/ (empty interior lines written as " *");
